@@ -92,6 +92,7 @@ type interpreter struct {
 	ex                 *Explorer              // symbolic exploration state (per worker)
 	ptrSeq             map[*value]int         // first-use-as-map-key order of pointers (deterministic iteration)
 	jsonHeap           []jsonEntry            // modelled json.Marshal results
+	syncMaps           map[*value]*[]smEntry  // modelled sync.Map contents
 }
 
 type deferred struct {
